@@ -238,8 +238,19 @@ struct TypeGen {
             "unsigned short", "int",           "unsigned int",
             "long",          "unsigned long",  "long long",
             "unsigned long long", "float",     "double",
-            "long double",   "char8_t"};
-        return f[ch.draw(20)];
+            "long double",   "char8_t",
+            // std::nullptr_t as the demangler prints it, and the extended
+            // integers
+            "decltype(nullptr)", "__int128", "unsigned __int128"};
+        return f[ch.draw(23)];
+    }
+
+    // a non-type template argument, as a demangler prints it
+    std::string literal() {
+        static const char* l[] = {"3ul", "42",  "7ull", "10l",  "2u",
+                                  "-1",  "true", "false", "(char)65",
+                                  "0",   "1000000000000ll", "(unsigned char)3"};
+        return l[ch.draw(12)];
     }
 
     std::string type(int depth) {
@@ -268,7 +279,11 @@ struct TypeGen {
             for (int i = 0; i < n; ++i) {
                 s += (i ? ", " : "") + type(depth + 1);
             }
-            return s + ")";
+            s += ")";
+            if (ch.chance(1, 4)) {
+                s += " noexcept"; // part of the function type since C++17
+            }
+            return s;
         }
         case 9: { // std / yorel template or entity
             static const char* t[] = {
@@ -284,12 +299,18 @@ struct TypeGen {
             if (ch.chance(1, 4)) {
                 s += ", " + type(depth + 1);
             }
+            if (ch.chance(1, 4)) {
+                s += ", " + literal(); // std::array<T, 3ul>
+            }
             return s + (s.back() == '>' ? " >" : ">");
         }
         case 10: { // user template: the template name is skipped
             static const char* t[] = {"Box", "app::Holder", "ab::Pair"};
             std::string s = std::string(t[ch.draw(3)]) +
                 (ch.chance(1, 3) ? " <" : "<") + type(depth + 1);
+            if (ch.chance(1, 4)) {
+                s += ", " + literal();
+            }
             return s + (s.back() == '>' ? " >" : ">");
         }
         default:
@@ -349,7 +370,7 @@ static Outcome run_types(const json& j) {
         o = compare(declared, expected, "types");
     }
     vf::Fnv h;
-    bool cv = false, fundamental_multi = false, tmpl = false;
+    bool cv = false, fundamental_multi = false, tmpl = false, lit = false;
     for (auto& d : descs) {
         h.add(d);
         cv |= d.find("const") != std::string::npos ||
@@ -357,6 +378,12 @@ static Outcome run_types(const json& j) {
         fundamental_multi |= d.find("unsigned ") != std::string::npos ||
             d.find("long ") != std::string::npos;
         tmpl |= d.find('<') != std::string::npos;
+        lit |= d.find("noexcept") != std::string::npos ||
+            d.find("nullptr") != std::string::npos ||
+            d.find("ul") != std::string::npos ||
+            d.find("true") != std::string::npos ||
+            d.find("false") != std::string::npos ||
+            d.find("__int128") != std::string::npos;
     }
     o.hash = h.h;
     o.nontrivial = !expected.empty() && (cv || tmpl || fundamental_multi);
@@ -368,6 +395,9 @@ static Outcome run_types(const json& j) {
     }
     if (fundamental_multi) {
         o.classes.push_back("multi_word_fundamental");
+    }
+    if (lit) {
+        o.classes.push_back("literal_or_keyword_token");
     }
     return o;
 }
